@@ -21,11 +21,13 @@ PROP = "C13"
 RULE = ("cases: (1) exhaustive small scope: every leaf reader (DataFrameReader, CSVFileReader via from_path with "
         ".tab/.csv/.tsv/sep=',', ParquetFileReader with row-group sizes 1,2 (thorough also 3,n)) x n in 0..5 (thorough 0..8) x chunk size "
         "1..n+1 x column requests (None, each single column, reversed order, a 2-permutation) for read and "
-        "get_chunked_data_iterator; (2) random reader trees of depth <= 3 (thorough 4) built from ColumnMappedReader "
+        "get_chunked_data_iterator, and small composite trees (computed readers at the root, inside a join, under a "
+        "renaming and nested in each other) x n x chunk size x requests incl. None; (2) random reader trees of depth <= 3 (thorough 4) built from ColumnMappedReader "
         "(ctor and from_path(column_map=)), JoinedTabularDataReader, ComputedTabularDataReader (const / copy-of-column "
-        "functions) over such leaves, random NoDup column requests in random order; (3) malformed stream: unknown and "
+        "functions) over such leaves, random NoDup column requests in random order or columns=None (also on trees with "
+        "computed readers: an ordinary request); (3) malformed stream: unknown and "
         "repeated requested columns, chunk size 0, members of different length in a join, colliding renames, "
-        "columns=None on a computed reader, functions that are not row-wise (len) or return the wrong length, empty "
+        "functions that are not row-wise (len) or return the wrong length, empty "
         "join, empty column request; (4) writers: TabularDataWriter.from_suffix x {.csv,.tab,.parquet} x buffer_size "
         "0..4 (thorough 0..6) x buffer_type {DataFrame,Dicts,Records} x all append-size sequences over {0,1,2,3} of "
         "length <= 3 (thorough <= 4), random longer sequences, BufferedWriter constructed directly with size 1..3; "
@@ -60,7 +62,6 @@ NAN_ID = -1
 UNKNOWN_ID = -999
 KINDS = ["DataFrame", "Dicts", "Records"]
 
-KEY_COMPUTED_NONE = "computed-reader:columns=None"
 KEY_CSV_EMPTY = "csv-reader:columns=[]"
 KEY_PQ_EMPTY = "parquet-reader:columns=[]"
 
@@ -542,7 +543,8 @@ def spec_table(spec):
 
 
 def _copy_needs_ok(spec, cols):
-    """a copy-of-column function only sees the requested columns: its source must be requested"""
+    """a copy-of-column function only sees the requested columns: its source must be requested whenever the computed
+    column is (tr_req_inv)"""
     k = spec["k"]
     if k in ("frame", "csv", "parquet"):
         return True
@@ -559,7 +561,8 @@ def _copy_needs_ok(spec, cols):
     if cols is None:
         return True
     sub = [x for x in cols if x != spec["col"]]
-    if spec["fn"][0] == "copy" and spec["fn"][1] not in sub:
+    # (func is only called when its column is requested)
+    if spec["col"] in cols and spec["fn"][0] == "copy" and spec["fn"][1] not in sub:
         return False
     return _copy_needs_ok(spec["r"], sub)
 
@@ -684,8 +687,6 @@ def oracle(c, i):
 
 def finding_key(c, m, i):
     if c["fn"] in ("read", "chunks"):
-        if c["cols"] is None and has_computed(c["reader"]):
-            return KEY_COMPUTED_NONE
         if csv_starved(c["reader"], c["cols"]):
             return KEY_CSV_EMPTY
         if c["fn"] == "chunks" and csv_starved(c["reader"], c["cols"], "parquet"):
@@ -874,15 +875,27 @@ def gen_exhaustive(ctx):
             "computed(csv,const)": ({"k": "computed", "r": _leaf("csv", tb, suffix=".tab"), "col": "k",
                                      "fn": ["const", "dec"]}, [None, ["e", "k"], ["k"], ["c", "d"]]),
             "computed(parquet,copy)": ({"k": "computed", "r": _leaf("parquet", tb, rg=1), "col": "k",
-                                        "fn": ["copy", "d"]}, [["k", "d"], ["d", "c", "k"], ["k", "c"]]),
+                                        "fn": ["copy", "d"]}, [None, ["k", "d"], ["d", "c", "k"], ["k", "c"]]),
             "computed(mapped(csv))": ({"k": "computed", "col": "is_decoy", "fn": ["const", False],
                                        "r": {"k": "mapped", "via": "from_path", "r": _leaf("csv", tb, suffix=".psms"),
                                              "map": [["c", "score"]]}},
-                                      [["score", "is_decoy"], ["is_decoy", "e", "score", "d"]]),
+                                      [None, ["score", "is_decoy"], ["is_decoy", "e", "score", "d"], ["e", "d"]]),
             "joined(computed,mapped)": ({"k": "joined", "rs": [
                 {"k": "computed", "r": _leaf("frame", ta), "col": "k", "fn": ["copy", "a"]},
                 {"k": "mapped", "r": _leaf("parquet", tb, rg=3), "map": [["d", "D"]]}]},
-                [["D", "k", "a"], ["a", "k", "c", "e"], ["k", "D"]]),
+                [None, ["D", "k", "a"], ["a", "k", "c", "e"], ["k", "D"], ["c", "a"]]),
+            # computed readers nested in each other, under a renaming and over a join
+            "computed(computed(csv))": ({"k": "computed", "col": "k2", "fn": ["copy", "k"], "r": {
+                "k": "computed", "r": _leaf("csv", tb, suffix=".tab"), "col": "k", "fn": ["copy", "c"]}},
+                [None, ["k2", "k", "c"], ["c", "k"], ["e", "d"]]),
+            "mapped(computed(parquet))": ({"k": "mapped", "map": [["k", "K"], ["c", "C"]], "r": {
+                "k": "computed", "r": _leaf("parquet", tb, rg=2), "col": "k", "fn": ["const", 2.5]}},
+                [None, ["K", "C"], ["d", "C"]]),
+            "computed(mapped(joined(computed(frame),csv)))": ({"k": "computed", "col": "top", "fn": ["copy", "K"], "r": {
+                "k": "mapped", "map": [["k", "K"], ["g", "G"]], "r": {"k": "joined", "rs": [
+                    {"k": "computed", "r": _leaf("frame", ta), "col": "k", "fn": ["copy", "b"]},
+                    _leaf("csv", tc, suffix=".tab")]}}},
+                [None, ["top", "K", "b", "G"], ["G", "a"], ["K", "b", "G"]]),
         }
         for label, (rd, reqs2) in comps.items():
             for cols in reqs2:
@@ -966,7 +979,7 @@ def _copy_sources(spec):
 def rand_request(rng, rd, want_ok=True):
     names = spec_names(rd)
     for _ in range(30):
-        if not has_computed(rd) and rng.random() < 0.15:
+        if rng.random() < 0.15:
             cols = None
         else:
             k = rng.randint(1, len(names))
@@ -1000,6 +1013,12 @@ def gen_random(ctx):
             cs = {1, n + 1, max(1, n), rng.randint(1, n + 2), rng.randint(1, max(1, n // 2 + 1))}
             for c in sorted(cs):
                 cases.append(_case("chunks", rd, cols, c, tags=tg))
+        if has_computed(rd) and rng.random() < 0.5:
+            # columns=None on a tree containing computed readers (root or nested): whole and chunked
+            tg = ["random-tree", "root:" + rd["k"], f"depth={depth}", "cols=None", "none-with-computed"]
+            cases.append(_case("read", rd, None, tags=tg))
+            for c in sorted({1, max(1, n), rng.randint(1, n + 2)}):
+                cases.append(_case("chunks", rd, None, c, tags=tg))
         cases.append({"fn": "names", "reader": rd, "tags": ["names"]})
     return cases
 
@@ -1014,7 +1033,7 @@ def gen_malformed(ctx):
         rd = rand_reader(rng, rng.choice([0, 1, 2, 2]), n, pool)
         cols = rand_request(rng, rd, want_ok=False)
         c = rng.randint(1, n + 2)
-        mut = rng.choice(["unknown", "dup", "c0", "uneq", "collide", "none-computed", "fn-len", "fn-short",
+        mut = rng.choice(["unknown", "dup", "c0", "uneq", "collide", "fn-len", "fn-short",
                           "empty-join", "empty-cols", "copy-unrequested", "dup-names-join"])
         if mut == "unknown":
             cols = list(cols or spec_names(rd))
@@ -1043,12 +1062,7 @@ def gen_malformed(ctx):
             if len(names) >= 2:
                 a, b = rng.sample(names, 2)
                 rd = {"k": "mapped", "r": rd, "map": [[a, b]]}
-                cols = rng.choice([None, [b], [x for x in names if x != a]]) if not has_computed(rd) else [b]
-        elif mut == "none-computed":
-            rd = {"k": "computed", "r": rd, "col": pool.fresh("K"), "fn": ["const", True]}
-            if rng.random() < 0.4:
-                rd = {"k": "joined", "rs": [rd, rand_leaf(rng, n, pool)]}
-            cols = None
+                cols = rng.choice([None, [b], [x for x in names if x != a]])
         elif mut == "fn-len":
             rd = {"k": "computed", "r": rd, "col": pool.fresh("K"), "fn": ["len"]}
             cols = rand_request(rng, rd, want_ok=True) or spec_names(rd)
@@ -1069,7 +1083,7 @@ def gen_malformed(ctx):
             cols = [x for x in names if x != src][:2] + [rd["col"]]
         elif mut == "dup-names-join":
             rd = {"k": "joined", "rs": [rd, copy.deepcopy(rd)]}
-            cols = rng.choice([None, spec_names(rd)[:1]]) if not has_computed(rd) else spec_names(rd)[:1]
+            cols = rng.choice([None, spec_names(rd)[:1]])
         tg = ["malformed", "mut:" + mut]
         cases.append(_case("read", rd, cols, tags=tg))
         cases.append(_case("chunks", rd, cols, c, tags=tg))
@@ -1203,16 +1217,12 @@ def _finding_probe(case, key, what):
 
 def extra_checks(ctx):
     """(a) contract of the recorded Parquet batch-length oracle; (b) the known defects of /repo that contradict
-    the property text are re-observed with the property oracle (reported under their finding key)."""
+    the property text (a CSV / Parquet leaf asked for no column) are re-observed with the property oracle (reported
+    under their finding key)."""
     fails = list(_ORACLE_FAILS)
     info = {"oracle_contract_checks": _ORACLE_CHECKS[0]}
     ta, tb = plain_table(["a", "b"], 3), plain_table(["c", "d"], 3, 7)
-    comp = {"k": "computed", "r": _leaf("frame", ta), "col": "k", "fn": ["const", True]}
     probes = [
-        (_case("read", comp, None), KEY_COMPUTED_NONE,
-         "ComputedTabularDataReader.read(columns=None) does not return the table"),
-        (_case("chunks", comp, None, 2), KEY_COMPUTED_NONE,
-         "ComputedTabularDataReader.get_chunked_data_iterator(columns=None) does not return the table"),
         (_case("chunks", {"k": "joined", "rs": [_leaf("csv", ta, suffix=".tab"), _leaf("frame", tb)]}, ["d"], 2),
          KEY_CSV_EMPTY, "JoinedTabularDataReader over a CSV member none of whose columns is requested, chunked"),
         (_case("read", {"k": "computed", "r": _leaf("csv", ta, suffix=".tab"), "col": "k", "fn": ["const", True]},
